@@ -1195,6 +1195,8 @@ def judge_expr(case, obs, reps, index):
             doc = doc_matrix(cs["kind"], cs["conv"], vals)
             smax = max([float(ast_scale(ast, env)[0]) for ast in cs["slots"].values()] + [0.0])
             vmax = max(abs(x) for x in vals.values())
+            if vmax > 1e7:
+                continue   # beyond about 1e6 periods a double no longer determines the angle: not compared
             for key, which in (("num", "numeric"), ("sym", "symbolic")):
                 got = d[key]
                 if isinstance(got, str):
@@ -2408,6 +2410,14 @@ def judge_xsess(case, obs, reps):
                           f"{'has a matrix' if mf is not None else 'has none'}"))
             return fails
         free = last_snp["comps"][cid].get("free")
+        if free is not None and sorted(mf["free"]) != free and set(free) < set(mf["free"]):
+            # sympy multiplies an entry by an exact zero away: WP(delta=a, xsi=-a) at a = 0.0 has sin(delta) = 0.0 in
+            # front of every term that still holds the symbol of xsi, so the real matrix has FEWER free symbols than
+            # the model's (un-simplified) one.  Accepted only when a current slot value makes an exact zero factor.
+            reads = [v for v in last_snp["comps"][cid].get("reads", []) if isinstance(v, float)]
+            if any(v == 0.0 or math.sin(v) == 0.0 or math.cos(v) == 0.0 or math.sin(v / 2) == 0.0
+                   or math.cos(v / 2) == 0.0 for v in reads):
+                continue
         if free is not None and sorted(mf["free"]) != free:
             fails.append(("broken", "xsess-model-vs-code:free-symbols",
                           f"{label} {cid}: the symbolic matrix has the free symbols {free}, model {sorted(mf['free'])}"))
@@ -2438,6 +2448,10 @@ def judge_xsess(case, obs, reps):
                         else:
                             vals[slot] = v
             if not ok or not all(isinstance(v, float) for v in vals.values()):
+                continue
+            if max([abs(x) for x in vals.values()] + [0.0]) > 1e7:
+                # beyond about 1e6 periods a double no longer determines the angle (an expression such as
+                # exp(5*(c+a)/4) amplifies the rounding of its argument by |value|): not compared, as for the other streams
                 continue
             doc = doc_matrix(kind, conv, vals)
             tol = 1e-8 + 2e-15 * max([abs(x) for x in vals.values()] + [smax])
